@@ -61,7 +61,7 @@ send_send_sock_{sfx}:
               {sent} := n;
               wire := Join(wire, Take(c, n));
               room := IF room = Unlimited THEN Unlimited ELSE room - n;
-              if (n = 0) {{ blocked := blocked + 1; goto {after}; }}
+              if (n = 0) {{ blocked := IF blocked < MaxAfterOf(cfg) THEN blocked + 1 ELSE blocked; goto {after}; }}
               else if (n > BLen(obufs[1])) {{ crashed := crashed \\cup {{{who}}}; goto {after}; }}
               else {{ ostr[1] := ostr[1] /\\ (n = BLen(obufs[1])); obufs[1] := Drop(obufs[1], n); {outlen} := {outlen} - n; {flushed} := TRUE; }};
             }};
@@ -205,6 +205,10 @@ IsBytePrefix(w, p) == /\ Len(w) <= Len(p)
                                               /\ IF i < Len(w) THEN w[i][3] = p[i][3] ELSE w[i][3] <= p[i][3]
 IsPrefix(a, b) == Len(a) <= Len(b) /\ SubSeq(b, 1, Len(a)) = a
 Finals(w) == SelectSeq(w, LAMBDA u : u[2] # 0)
+(* `blocked` counts the sends that found the socket full; the client script only asks whether it has reached a
+   threshold, so it saturates at the largest one (a socket with a pending error is reported writable for ever: the
+   I/O loop may find it full any number of times) *)
+MaxAfterOf(c) == LET A == {c.ops[i].after : i \in 1..Len(c.ops)} IN IF A = {} THEN 0 ELSE CHOOSE m \in A : \A x \in A : x <= m
 
 '''
 
